@@ -24,17 +24,41 @@ Open Scope string_scope.
 
 (* ------------------------------------------------------------------ state *)
 
+(* everything else the data store holds about ONE object, abstractly: a list of (kind, value id) pairs - one per
+   table that has rows for the object, the value id standing for the object's rows there (names, object groups,
+   application specific information, state, usage mask, key material, ...).  A value belongs to ONE object: this is
+   the property-level view; the data store may share rows, the observable attribute state may not. *)
+Definition content := list (string * string).
+
 Record obj := { o_uid : string;      (* str(unique_identifier), canonical decimal *)
                 o_type : Z;          (* managed_objects.object_type *)
                 o_owner : user;      (* managed_objects.owner *)
-                o_pol : string }.    (* managed_objects.operation_policy_name *)
+                o_pol : string;      (* managed_objects.operation_policy_name *)
+                o_content : content }.
 
 Record store := { objs : list obj;        (* rows, in insertion order *)
                   dead : list string }.   (* identifiers of deleted rows (SQLite AUTOINCREMENT never reissues them) *)
 
+Definition content_eqb (a b : content) : bool :=
+  Nat.eqb (List.length a) (List.length b) &&
+  forallb (fun p => String.eqb (fst (fst p)) (fst (snd p)) && String.eqb (snd (fst p)) (snd (snd p))) (combine a b).
+
 Definition obj_eqb (a b : obj) : bool :=
   String.eqb (o_uid a) (o_uid b) && Z.eqb (o_type a) (o_type b) &&
-  user_eqb (o_owner a) (o_owner b) && String.eqb (o_pol a) (o_pol b).
+  user_eqb (o_owner a) (o_owner b) && String.eqb (o_pol a) (o_pol b) && content_eqb (o_content a) (o_content b).
+
+(* the access-control columns of two rows agree *)
+Definition same_acl (a b : obj) : Prop :=
+  o_uid a = o_uid b /\ o_type a = o_type b /\ o_owner a = o_owner b /\ o_pol a = o_pol b.
+
+Definition set_content (u : string) (c : content) (l : list obj) : list obj :=
+  map (fun o => if String.eqb (o_uid o) u
+                then {| o_uid := o_uid o; o_type := o_type o; o_owner := o_owner o; o_pol := o_pol o; o_content := c |}
+                else o) l.
+
+(* operations whose success rewrites attributes of their primary object (Activate, Revoke: the state;
+   Modify/Set/DeleteAttribute); Destroy deletes the row; creators write the content of the rows they add *)
+Definition mutating_ops : list Z := [18; 19; 14; 15; 49].
 
 Definition uids (s : store) : list string := map o_uid (objs s).
 
@@ -60,7 +84,10 @@ Record request := {
   r_pre_ok : bool;                     (* the handler's checks that precede its first choke point pass *)
   r_post_ok : bool;                    (* oracle input: everything after the granted loads succeeds *)
   r_match : option (list string);      (* Locate: identifiers matching the attribute filters (None = no filter) *)
-  r_new : list (string * Z * string)   (* oracle input for creators: (identifier issued, object type, policy name) *)
+  r_upd : option content;              (* oracle input for the attribute-writing operations: the content of the primary
+                                          object afterwards (None = unchanged) *)
+  r_new : list (string * Z * string * content)
+                                       (* oracle input for creators: (identifier issued, object type, policy name, content) *)
 }.
 
 Inductive outcome :=
@@ -163,19 +190,19 @@ Fixpoint run_sites (P : policies) (id : identity) (s : store) (ph : option strin
 
 (* ------------------------------------------------------------------ effects on the access-control columns *)
 
-Definition add_new (s : store) (owner : user) (n : string * Z * string) : option store :=
-  let '(u, t, p) := n in
-  if fresh s u then Some {| objs := objs s ++ [{| o_uid := u; o_type := t; o_owner := owner; o_pol := p |}];
+Definition add_new (s : store) (owner : user) (n : string * Z * string * content) : option store :=
+  let '(u, t, p, c) := n in
+  if fresh s u then Some {| objs := objs s ++ [{| o_uid := u; o_type := t; o_owner := owner; o_pol := p; o_content := c |}];
                             dead := dead s |}
   else None.
 
-Fixpoint add_all (s : store) (owner : user) (ns : list (string * Z * string)) : option store :=
+Fixpoint add_all (s : store) (owner : user) (ns : list (string * Z * string * content)) : option store :=
   match ns with
   | [] => Some s
   | n :: t => match add_new s owner n with None => None | Some s' => add_all s' owner t end
   end.
 
-Definition new_uid (n : string * Z * string) : string := fst (fst n).
+Definition new_uid (n : string * Z * string * content) : string := fst (fst (fst n)).
 
 Definition located (ld : loaded) (r : request) : list string :=
   let ids := map o_uid (l_listed ld) in
@@ -221,6 +248,12 @@ Definition step_item (P : policies) (id : identity) (st : state) (r : request) :
                                else ph))
             end
           else (OStuck, st)
+        else if existsb (Z.eqb (r_op r)) mutating_ops then
+          (* an attribute-writing operation rewrites the content of the object it loaded - and of no other *)
+          match l_objs ld, r_upd r with
+          | o :: _, Some c => (OSuccess (located ld r), ({| objs := set_content (o_uid o) c (objs s); dead := dead s |}, ph))
+          | _, _ => (OSuccess (located ld r), st)
+          end
         else (OSuccess (located ld r), st)
       end
     end
